@@ -58,10 +58,15 @@ def build_harness(profile="debug", features=None):
         tag += "-" + ("_".join(features) if features else "nofeat")
     t0 = time.time()
     env = {"CARGO_NET_OFFLINE": "true"}
+    tdir = "target"
+    if features is not None:
+        # one shared directory for all non-default variants keeps disk use bounded; the two extremes get their own cache
+        tdir = "target-nostd" if not features else ("target-std" if features == ["std"] else "target-variants")
+        cmd += ["--target-dir", tdir]
     rc, out = run(cmd, cwd=HARNESS, env=env, timeout=1800)
     if rc != 0:
         raise BuildError(tag, out)
-    src = os.path.join(HARNESS, "target", "release" if profile == "release" else "debug", "harness")
+    src = os.path.join(HARNESS, tdir, "release" if profile == "release" else "debug", "harness")
     os.makedirs(os.path.join(WORK, "bin"), exist_ok=True)
     dst = os.path.join(WORK, "bin", "harness-" + tag)
     shutil.copy2(src, dst)
@@ -211,6 +216,16 @@ def signature(events, start, k):
     return ",".join(parts)
 
 
+def owners_of(op, reason):
+    """which properties a rejected event counts against"""
+    if reason in ("srcmod", "crash"):
+        return set(REASON_OWNERS[reason])      # memory / termination rules have their own properties
+    if reason == "missing_failure":
+        # "must panic here" is owned by C14 and by the properties whose statement names the failure case
+        return set(REASON_OWNERS[reason]) | (set(OP_OWNERS.get(op, ())) & FAILURE_STATED)
+    return set(OP_OWNERS.get(op, ())) | set(REASON_OWNERS.get(reason, ()))
+
+
 # ------------------------------------------------------------------ known findings
 def load_known():
     p = os.path.join(ROOT, "known_findings.json")
@@ -287,13 +302,7 @@ def check_property(pid, tier, seed):
                         cov["samples"].append(trim_event(ev))
                 for (ln, op, form, reason) in res["bads"]:
                     ev = events[ln - 1]
-                    if reason in ("srcmod", "crash"):
-                        owners = set(REASON_OWNERS[reason])      # memory / termination rules have their own properties
-                    elif reason == "missing_failure":
-                        # "must panic here" is owned by C14 and by the properties whose statement names the failure case
-                        owners = set(REASON_OWNERS[reason]) | (set(OP_OWNERS.get(op, ())) & FAILURE_STATED)
-                    else:
-                        owners = set(OP_OWNERS.get(op, ())) | set(REASON_OWNERS.get(reason, ()))
+                    owners = owners_of(op, reason)
                     if "*" in spec.get("owns_reasons", ()) or reason in spec.get("owns_reasons", ()):
                         owners.add(pid)
                     start, end = case_slice(events, ln)
@@ -350,7 +359,7 @@ def check_property(pid, tier, seed):
 
     # custom step (extraction-based checks etc.)
     if "custom" in spec:
-        spec["custom"](pid, tier, seed, cov, violations, notes)
+        spec["custom"](pid, tier, seed, cov, violations, notes, sys.modules[__name__])
 
     for n in notes[:20]:
         log(n)
